@@ -31,6 +31,11 @@ func c20Schema(variant int, jsonSafe bool) string {
 		add("set_"+a, fmt.Sprintf(`{"key":{"type":%q},"min":0,"max":"unlimited"}`, a))
 		add("set1n_"+a, fmt.Sprintf(`{"key":{"type":%q},"min":1,"max":5}`, a))
 		add("one_"+a, fmt.Sprintf(`{"key":{"type":%q},"min":1,"max":1}`, a))
+		// bounds left out: both default to 1 (RFC 7047 3.2)
+		add("optnomax_"+a, fmt.Sprintf(`{"key":{"type":%q},"min":0}`, a))
+		add("setnomin_"+a, fmt.Sprintf(`{"key":{"type":%q},"max":"unlimited"}`, a))
+		add("keyonly_"+a, fmt.Sprintf(`{"key":{"type":%q}}`, a))
+		add("keystr_"+a, fmt.Sprintf(`{"key":%q}`, a))
 		for _, v := range atoms {
 			if jsonSafe && (a == "real" || a == "boolean") {
 				continue // without generated copy methods models are cloned through JSON, which cannot encode such keys (C13 finding)
@@ -60,6 +65,8 @@ func c20Schema(variant int, jsonSafe bool) string {
 		fmt.Sprintf(`"nb_global":{"columns":{%s},"isRoot":true}`, small),
 		fmt.Sprintf(`"IPFIX_config":{"columns":{%s},"isRoot":true}`, small),
 		fmt.Sprintf(`"Abc":{"columns":{%s},"isRoot":true}`, small),
+		// the shortest names: a one-letter table with a one-letter enum column (type alias of two characters)
+		`"T":{"columns":{"x":{"type":{"key":{"type":"string","enum":["set",["p","q"]]}}},"y":{"type":{"key":{"type":"string","enum":["set",["p","q"]]},"min":0,"max":"unlimited"}}},"isRoot":true}`,
 	}
 	if variant > 0 {
 		tables = append(tables, fmt.Sprintf(`"Flow_Sample_Collector_Set":{"columns":{%s,"bridge":{"type":{"key":{"type":"uuid","refTable":"ACL"}}}},"isRoot":true}`, small),
